@@ -172,24 +172,48 @@ theorem paintNote_isOk {n : Nat} (leds : List String) (hn : leds.length = n) (m 
   have : Good n [] c (.ok l) := ⟨l, rfl, hl, by intro i hi; cases hi⟩
   exact (paintNote_good leds hn m note c [] _ this).isOk
 
+/-- induction principle for the pre-frame: a predicate that holds of the blank frame and is kept by a checked strip
+    write and by a checked action paint holds of `framePre` -/
+theorem framePre_ind (P : Frame → Prop) (d : Dev) (devName : String) (leds : List String)
+    (h0 : P (.ok (List.replicate leds.length d.cfg.colors.unavailable)))
+    (hstrip : ∀ f name, name ∈ stripLeds devName → P f →
+      P (match alookup name (nameToIndex leds) with | some i => setAt f i off | none => f))
+    (hpa : ∀ f a c, P f → P (paintAction true d.cfg (indexMap leds) f a c)) :
+    P (framePre true d devName leds) := by
+  unfold framePre
+  simp only [if_true]
+  have hs : P ((stripLeds devName).foldl (fun f name =>
+      match alookup name (nameToIndex leds) with | some i => setAt f i off | none => f)
+      (.ok (List.replicate leds.length d.cfg.colors.unavailable))) := by
+    have gen : ∀ (L : List String) (f0 : Frame), (∀ x ∈ L, x ∈ stripLeds devName) → P f0 →
+        P (L.foldl (fun f name => match alookup name (nameToIndex leds) with | some i => setAt f i off | none => f) f0) := by
+      intro L
+      induction L with
+      | nil => intro f0 _ h; exact h
+      | cons a r ih =>
+        intro f0 hL h
+        exact ih _ (fun x hx => hL x (List.mem_cons_of_mem _ hx)) (hstrip f0 a (hL a List.mem_cons_self) h)
+    exact gen _ _ (fun x hx => hx) h0
+  have pa := fun {f : Frame} (h : P f) (a : Action) (c : RGB) => hpa f a c h
+  have ite := fun {f g : Frame} (c : Prop) [Decidable c] (h1 : P f) (h2 : P g) =>
+    (show P (if c then f else g) by split <;> assumption)
+  repeat (first | apply pa | apply ite | exact hs)
+
+theorem framePre_isOk (d : Dev) (devName : String) (leds : List String) :
+    IsOk leds.length (framePre true d devName leds) := by
+  apply framePre_ind (IsOk leds.length)
+  · exact ⟨_, rfl, by simp⟩
+  · intro f name _ hf
+    split
+    · rename_i i hi; exact setAt_isOk hf i off (nameToIndex_lt leds name i hi)
+    · exact hf
+  · intro f a c hf; exact paintAction_isOk d.cfg (indexMap leds) hf a c
+
 /-- with checked writes the base frame is always a frame of one colour per LED — for any layout, also an empty one -/
 theorem frameBase_isOk (d : Dev) (devName : String) (leds : List String) (shifted : RGB × RGB × RGB) (m : Mapping) :
     IsOk leds.length (frameBase true d devName leds shifted m) := by
   unfold frameBase
-  simp only [if_true]
-  have h0 : IsOk leds.length (.ok (List.replicate leds.length d.cfg.colors.unavailable)) := ⟨_, rfl, by simp⟩
-  have hstrip : IsOk leds.length ((stripLeds devName).foldl (fun f name =>
-      match alookup name (nameToIndex leds) with | some i => setAt f i off | none => f)
-      (.ok (List.replicate leds.length d.cfg.colors.unavailable))) := by
-    apply foldl_isOk _ _ _ _ h0
-    intro f name hf
-    split
-    · rename_i i hi; exact setAt_isOk hf i off (nameToIndex_lt leds name i hi)
-    · exact hf
-  have pa := fun {f : Frame} (h : IsOk leds.length f) (a : Action) (c : RGB) =>
-    paintAction_isOk d.cfg (indexMap leds) h a c
-  have ite := fun {f g : Frame} (c : Prop) [Decidable c] (h1 : IsOk leds.length f) (h2 : IsOk leds.length g) =>
-    (show IsOk leds.length (if c then f else g) by split <;> assumption)
+  simp only
   apply foldl_isOk
   · intro f p hf
     split
@@ -198,7 +222,7 @@ theorem frameBase_isOk (d : Dev) (devName : String) (leds : List String) (shifte
       split
       · exact hf
       · exact setAt_isOk hf i _ (indexMap_lt leds _ i hi)
-  · repeat (first | apply pa | apply ite | exact hstrip)
+  · exact framePre_isOk d devName leds
 
 theorem frameExt_isOk (d : Dev) (leds : List String) (m : Mapping) {f : Frame} (h : IsOk leds.length f) :
     IsOk leds.length (frameExt d leds m f) := by
